@@ -23,10 +23,12 @@ HdrRows(h) == IF h = "0" THEN 0 ELSE 1          \* default headerRowCount = 1
 TotRows(t) == IF t = "1" THEN 1 ELSE 0          \* default totalsRowCount = 0
 
 \* IDEAL data rectangle and content
+EmptyTable == [start |-> <<>>, end |-> <<>>, rows |-> <<>>]
 IdealTable(t, sheetEmpty) ==
   LET s == <<t.a[1] + HdrRows(t.hdr), t.a[2]>>
       e == <<t.b[1] - TotRows(t.tot), t.b[2]>>
-  IN [start |-> s, end |-> e,
+  IN IF s[1] > e[1] THEN EmptyTable        \* header and totals rows only: no data row, an empty range
+     ELSE [start |-> s, end |-> e,
       rows |-> [r \in 1..(e[1] - s[1] + 1) |-> [c \in 1..(e[2] - s[2] + 1) |->
                   SheetVal(sheetEmpty, <<s[1] + r - 1, s[2] + c - 1>>)]]]
 
@@ -41,7 +43,8 @@ AsIsDims(t) ==
 PartFound(t) == TRUE
 AsIsTable(t, sheetEmpty) ==
   LET d == AsIsDims(t) IN
-  [start |-> d.start, end |-> d.end,
+  IF d.start[1] > d.end[1] THEN EmptyTable      \* the "no data row" guard of table_by_name / table_by_name_ref
+  ELSE [start |-> d.start, end |-> d.end,
    rows |-> [r \in 1..(d.end[1] - d.start[1] + 1) |-> [c \in 1..(d.end[2] - d.start[2] + 1) |->
                SheetVal(sheetEmpty, <<d.start[1] + r - 1, d.start[2] + c - 1>>)]]]
 =============================================================================
